@@ -58,6 +58,27 @@ def resolves_to_call(body, x, bbs):
     return any(r[0] == "call" and r[1] in bbs for r in roots_of(body, x))
 
 
+SEQ_IDENTITY = ("collect", "into_iter", "from_iter", "into", "from", "by_ref", "fuse")
+
+
+def same_sequence_as_call(body, x, bbs, depth=4):
+    """operand x is the result of one of the calls at `bbs`, possibly passed through conversions that keep
+    every element and their order (`.into_iter()`, `.collect()`, Vec <-> VecDeque `from`/`into`)"""
+    bbs = set(bbs)
+    for r in roots_of(body, x):
+        if r[0] != "call":
+            continue
+        if r[1] in bbs:
+            return True
+        c = body.call_at(r[1])
+        if depth > 0 and c is not None and c.name in SEQ_IDENTITY and len(c.args) == 1 and same_sequence_as_call(body, c.args[0], bbs, depth - 1):
+            # the destination is itself a sequence (not a set / map / reversed adaptor)
+            ty = body.facts.types[body.local_ty(c.dest["l"])]["s"] if not c.dest["p"] else ""
+            if any(x in ty for x in ("Vec<", "VecDeque<", "IntoIter<", "Drain<", "Box<[", "SmallVec<")) and "Rev<" not in ty:
+                return True
+    return False
+
+
 def resolves_to_arg(body, x, n):
     return ("arg", n) in roots_of(body, x)
 
